@@ -104,6 +104,7 @@ class Tamper:
 
     OPS = ("flip", "trunc", "extend", "relabel", "side-fresh", "side-own", "reflect", "inject",
            "dupdiff", "swap", "early-side")
+    # not drawn at random (needs a long session): "replay-old" re-sends, verbatim, an early genuine message of the peer
 
     def __init__(self, world, ops):
         self.world = world
@@ -238,4 +239,12 @@ class Tamper:
             return [("tampered", t)] + out
         if kind == "swap":
             return [("hold", kw)]
+        if kind == "replay-old":
+            old = [m for m in self.stored.get(vs, []) if m.get("side") != vs and m.get("phase") == op.get("phase", "version")]
+            if not old:
+                return out
+            m = dict(old[0])
+            if op.get("fresh_id", True):
+                m["id"] = t["id"]
+            return out + [("tampered-replay", m)]
         return out
